@@ -1046,7 +1046,7 @@ func c09R3(c *Ctx, r *Report, rule string) {
 			n++
 			fa, _ := st.Addr.(*ssa.FieldAddr)
 			al, isLit := fa.X.(*ssa.Alloc)
-			_, fromPkt := loadOfField(st.Val, "layer4.packet", "addr")
+			fromPkt := c.valueIsFieldLoad(f, st.Val, "layer4.packet", "addr", 0)
 			if !(isLit && strings.Contains(al.Comment, "complit") && fromPkt) {
 				bad = c.ipos(st) + " in " + fname(f)
 			}
@@ -1111,6 +1111,25 @@ func c09R4(c *Ctx, r *Report, rule string) {
 					okRoot = okRoot && namedName(deref(x.Type())) == "layer4.packetConn"
 				case *ssa.Lookup:
 				case *ssa.Extract:
+				case *ssa.Call:
+					// a constructor helper: every value it returns is a fresh packetConn
+					cal := x.Call.StaticCallee()
+					isCtor := cal != nil && len(returnsOf(cal)) > 0
+					if isCtor {
+						for _, rv := range returnsOf(cal) {
+							for _, res := range rv.Results {
+								for _, r2 := range addrRoots(res) {
+									if al, ok := r2.(*ssa.Alloc); !ok || namedName(deref(al.Type())) != "layer4.packetConn" {
+										isCtor = false
+									}
+								}
+							}
+						}
+					}
+					if !isCtor {
+						okRoot = false
+						detail = "queue derived from the result of " + calleeID(x)
+					}
 				default:
 					if _, isLk := rt.(*ssa.MakeMap); !isLk {
 						okRoot = false
@@ -1209,6 +1228,29 @@ func c08R6(c *Ctx, r *Report, rule string) {
 			r.check(ok, rule, fname(fn), fmt.Sprintf("WrapConnection#%d buffer", n), c.ipos(ci), "len(buf) = 0 proven", "the buffer given to the new connection is not proven empty: a slice recycled through the pool keeps the length it was returned with, so the connection's matchers and handlers would first see another connection's bytes")
 		}
 	}
+}
+
+// valueIsFieldLoad: v is a load of struct.field, or a parameter of an unexported helper to which every
+// caller passes such a load.
+func (c *Ctx) valueIsFieldLoad(fn *ssa.Function, v ssa.Value, structName, field string, depth int) bool {
+	if _, ok := loadOfField(v, structName, field); ok {
+		return true
+	}
+	par, ok := v.(*ssa.Parameter)
+	if !ok || depth > 2 || token.IsExported(fn.Name()) {
+		return false
+	}
+	sites, escapes := c.callSitesOf(fn)
+	idx := paramIndex(fn, par)
+	if escapes || len(sites) == 0 || idx < 0 {
+		return false
+	}
+	for _, cs := range sites {
+		if idx >= len(cs.Common().Args) || !c.valueIsFieldLoad(cs.Parent(), cs.Common().Args[idx], structName, field, depth+1) {
+			return false
+		}
+	}
+	return true
 }
 
 // c09R6: queued datagrams do not alias. Everything put on a queue from inside a loop (the datagram
@@ -1707,46 +1749,78 @@ func c13R4(c *Ctx, r *Report, rule string) {
 }
 
 func c13R6(c *Ctx, r *Report, rule string) {
-	r.rule(rule, "the value sent on the hand-off channel is the *Connection parameter itself or a struct whose embedded Conn is that parameter - never its inner Conn (prefetched bytes and TLS plaintext would be bypassed)", 2)
+	r.rule(rule, "the value sent on the hand-off channel is the *Connection parameter itself or a struct whose embedded Conn is that parameter - never its inner Conn (prefetched bytes and TLS plaintext would be bypassed); values built by a helper are followed into the helper", 2)
 	fn := c.Fn("layer4.(*listener).pipeConnection")
 	if fn == nil {
 		return
 	}
-	conn := fn.Params[1]
 	n := 0
-	for _, b := range fn.Blocks {
-		for _, in := range b.Instrs {
-			sd, ok := in.(*ssa.Send)
-			if !ok {
-				continue
-			}
+	// leaves(v): the values v can be, each with a verdict
+	var leaves func(f *ssa.Function, v ssa.Value, conn ssa.Value, at ssa.Instruction, depth int)
+	leaves = func(f *ssa.Function, v ssa.Value, conn ssa.Value, at ssa.Instruction, depth int) {
+		verdict := func(good bool, detail string) {
 			n++
-			good := false
-			detail := ""
-			if mi, ok := sd.X.(*ssa.MakeInterface); ok {
-				switch x := mi.X.(type) {
-				case *ssa.Parameter:
-					good = x == conn
-				case *ssa.Alloc:
-					// wrapper literal: its Conn field must be the parameter
-					for _, ref := range *x.Referrers() {
-						if fa, ok := ref.(*ssa.FieldAddr); ok && fieldName(deref(x.Type()), fa.Field) == "Conn" {
-							for _, r2 := range *fa.Referrers() {
-								if st, ok := r2.(*ssa.Store); ok {
-									if mi2, ok := st.Val.(*ssa.MakeInterface); ok && mi2.X == ssa.Value(conn) {
-										good = true
-									} else {
-										detail = "wrapper's Conn is " + originKinds(origins(st.Val, sliceOpts{}))
-									}
+			r.check(good, rule, fname(fn), fmt.Sprintf("delivered value#%d", n), c.ipos(at), "delivers the layer4 connection (or a wrapper embedding it)", "the value handed to the wrapped listener does not read through the layer4 connection ("+detail+"): prefetched bytes are lost / ciphertext is delivered")
+		}
+		switch x := v.(type) {
+		case *ssa.MakeInterface:
+			leaves(f, x.X, conn, at, depth)
+		case *ssa.ChangeInterface:
+			leaves(f, x.X, conn, at, depth)
+		case *ssa.Phi:
+			for _, e := range x.Edges {
+				leaves(f, e, conn, at, depth)
+			}
+		case *ssa.Parameter:
+			verdict(ssa.Value(x) == conn, "parameter "+x.Name())
+		case *ssa.Alloc:
+			// wrapper literal: its Conn field must be the connection
+			found := false
+			if x.Referrers() != nil {
+				for _, ref := range *x.Referrers() {
+					if fa, ok := ref.(*ssa.FieldAddr); ok && fieldName(deref(x.Type()), fa.Field) == "Conn" && fa.Referrers() != nil {
+						for _, r2 := range *fa.Referrers() {
+							if st, ok := r2.(*ssa.Store); ok {
+								found = true
+								val := st.Val
+								if mi2, ok := val.(*ssa.MakeInterface); ok {
+									val = mi2.X
 								}
+								verdict(val == conn, "wrapper's Conn is "+originKinds(origins(st.Val, sliceOpts{})))
 							}
 						}
 					}
-				default:
-					detail = originKinds(origins(sd.X, sliceOpts{}))
 				}
 			}
-			r.check(good, rule, fname(fn), fmt.Sprintf("delivered value#%d", n), c.ipos(sd), "delivers the layer4 connection (or a wrapper embedding it)", "the value handed to the wrapped listener does not read through the layer4 connection ("+detail+"): prefetched bytes are lost / ciphertext is delivered")
+			if !found {
+				verdict(false, "a "+typeStr(deref(x.Type()))+" without the connection in its Conn field")
+			}
+		case *ssa.Call:
+			cal := x.Call.StaticCallee()
+			idx := -1
+			for i, a := range x.Call.Args {
+				if a == conn {
+					idx = i
+				}
+			}
+			if cal == nil || idx < 0 || depth > 2 || len(cal.Blocks) == 0 || cal.Pkg == nil || !strings.HasPrefix(cal.Pkg.Pkg.Path(), modPath) {
+				verdict(false, "result of "+calleeID(x))
+				return
+			}
+			for _, rv := range returnsOf(cal) {
+				if len(rv.Results) > 0 {
+					leaves(cal, rv.Results[0], cal.Params[idx], at, depth+1)
+				}
+			}
+		default:
+			verdict(false, originKinds(origins(v, sliceOpts{})))
+		}
+	}
+	for _, b := range fn.Blocks {
+		for _, in := range b.Instrs {
+			if sd, ok := in.(*ssa.Send); ok {
+				leaves(fn, sd.X, fn.Params[1], sd, 0)
+			}
 		}
 	}
 }
